@@ -91,8 +91,11 @@ impl crate::Executor for Exec {
                 self.phy = Phy::Script(ScriptPhy { rx: vec![] });
                 "ok".into()
             }
-            (["sim.new", _mode], _) => {
-                let tx = SimulatorPhy::new(profirust::Baudrate::B500000, "tx");
+            (["sim.new", mode], _) => {
+                // `valid` = 500 kbit/s (22 us per character); `valid@<rate>` = another baud rate
+                let rate: u64 = mode.split('@').nth(1).map(|r| r.parse().unwrap()).unwrap_or(500_000);
+                let Some(baud) = crate::dp::baud_of(rate) else { return "bad-op".into() };
+                let tx = SimulatorPhy::new(baud, "tx");
                 let rx = tx.duplicate("rx");
                 self.phy = Phy::Sim { tx, rx };
                 "ok".into()
@@ -190,17 +193,21 @@ pub fn gen(ops: &mut Vec<String>, seed: u64, thorough: bool) {
             continue;
         }
         if case % 5 == 3 {
-            // over the real SimulatorPhy at 500 kbit/s: 22 us per byte; chunking by bus time
-            ops.push("sim.new valid".to_string());
+            // over the real SimulatorPhy: characters become visible after every full 11 bit times
+            // (`time_to_bits(elapsed) / 11`); at 500 kbit/s that is 22 us per byte, at most other baud rates 11
+            // bit times are not a whole number of microseconds
+            let rate: u64 = *rng.pick(&[500_000u64, 500_000, 1_500_000, 19_200, 93_750, 187_500, 12_000_000, 45_450]);
+            ops.push(if rate == 500_000 { "sim.new valid".to_string() } else { format!("sim.new valid@{rate}") });
+            let char_us = (11 * 1_000_000 / rate).max(1);
             for k in 0..n {
                 let t = &stream[boundaries[k]..boundaries[k + 1]];
                 ops.push(format!("sim.send {}", hex(t)));
                 let mut visible = 0usize;
                 let mut elapsed = 0u64;
                 while visible < t.len() {
-                    let step = 1 + rng.below(22 * 6);
+                    let step = 1 + rng.below(char_us * 6);
                     elapsed += step;
-                    let v = ((elapsed * 500_000 / 1_000_000) / 11).min(t.len() as u64) as usize;
+                    let v = ((elapsed * rate / 1_000_000) / 11).min(t.len() as u64) as usize;
                     ops.push(format!("sim.adv {} {}", step, hex(&t[visible..v])));
                     visible = v;
                     match rng.below(4) {
@@ -210,7 +217,7 @@ pub fn gen(ops: &mut Vec<String>, seed: u64, thorough: bool) {
                     }
                 }
                 // leave the 33 bit pause so the simulator accepts the next telegram
-                ops.push(format!("sim.adv {} -", 70 + rng.below(50)));
+                ops.push(format!("sim.adv {} -", 34 * 1_000_000 / rate + 4 + rng.below(50)));
             }
             ops.push("sim.all".to_string());
             ops.push("sim.end".to_string());
